@@ -92,6 +92,13 @@ CLAIMS["C04"] = (
     "DESIGN.md §2 C04",
 )
 
+CLAIMS["C03"] = (
+    "literal table extraction + own GF(2) arithmetic (codeword enumeration, polynomial division, cyclotomic cosets), closed-form matching of advertised formulas, def-use dependence of the extension column, layout (degree) reasoning for the cyclic parity slice",
+    "Constants and formulas behind the advertised (n, k, d): the literal Golay parity submatrix is enumerated by the checker (d = 7, perfect, weight enumerator; extension column evaluated from the source expression gives d = 8) and compared with the advertised values; every tabulated cyclic / BCH / RS standard code is validated against its name (divisibility of X^n+1, n - deg g = k, textbook distance, cyclotomic-coset dimension, Bose distance); the advertised closed forms of Hamming, Reed-Muller, repetition, SPC, BCH and code_rate are matched; the extension column must depend on the row sums; Hamming parity rows enumerate all weight>=2 tuples; the cyclic parity slice is the parity columns [0, n-k) of the systematic generator for every information set; no distance method may advertise an upper bound. True distances of constructed (non-tabulated) codes are not decided.",
+    "Trusted: gf2.py (cross-checked against known codes in the self-test), recognisers of the construction code (unknown shapes -> exit 2).",
+    "DESIGN.md §2 C03",
+)
+
 NOT_APPLICABLE = {
     "C09": "conjunction at run time of C02/C05/C06/C10/C11/C15 over component pairings and adversarial channels; its structural preconditions (stage order, LLR polarity, label agreement, block framing) are decided under C17, C15, C05, C20 - no additional clause is visible in the shape of the code (DESIGN.md §2 C09)",
 }
